@@ -1,8 +1,158 @@
-(* C14 - Locate returns exactly the permitted, matching objects, newest first (theorems added below) *)
-From PK Require Import Locate.Locate.
-From Coq Require Import List ZArith.
-Import ListNotations.
+(* C14 - Locate returns exactly the objects the requester is permitted to locate that match every
+   attribute filter in the request, ordered newest first; offset and maximum items select the
+   corresponding slice of that same ordered list, so consecutive pages partition the full result.
 
-Theorem locate_model_runs : locate_model (fun _ => true) [] [] None None = Ok [].
-Proof. reflexivity. Qed.
-Print Assumptions locate_model_runs.
+   Model:  PK.Locate.Locate (locate_model mirrors KmipEngine._process_locate as it is; tie K in harness/c14.py,
+           applicability through the generated rule table PKGen.AttrRuleTable, tie T).
+   Spec:   locate_spec = slice off max (sort_desc (filter (allowed && forallb matches && date_match) objs)).
+
+   Quantification: every store (list of objects), every access predicate `allowed` (hence every
+   requester and policy set), every filter list, every offset/maximum. *)
+From Coq Require Import String ZArith List Bool Permutation Sorted.
+From PK Require Import Locate.Locate Locate.LocateProofs Locate.LocateExamples.
+Import ListNotations.
+Open Scope string_scope.
+Open Scope list_scope.
+Open Scope Z_scope.
+
+(* ------------------------------------------------------------------------------------------------
+   1. Refinement.  Side conditions (side_conditions = wf_obj on the visible objects, wf_filters, crash_free):
+      wf_obj      Initial Date <> 0 (server clock past the epoch); algorithm, length, policy name not NULL
+                  (kmip.pie constructors / engine defaults guarantee it; harness confirms no such row can be made)
+      wf_filters  only the thirteen filter kinds of the property, mask filter within the defined bits,
+                  at most two Initial Date filters (one = exact, two = range; a third is refused)
+      crash_free  no visible object reaches an applicable filter whose attribute its class lacks
+                  (today: Cryptographic Algorithm/Length reaching a certificate - recorded under C13, DESIGN F3)
+      nonneg      offset and maximum are not negative
+   Each is shown necessary below (…_needed), and jointly satisfiable (locate_refines_spec_example). *)
+Theorem locate_refines_spec : forall allowed objs fs off mx,
+  side_conditions allowed objs fs -> nonneg off -> nonneg mx ->
+  locate_model allowed objs fs off mx = Ok (locate_spec allowed objs fs off mx).
+Proof. exact locate_refines_spec_lemma. Qed.
+Print Assumptions locate_refines_spec.
+
+Example locate_refines_spec_example :
+  side_conditions ex_allowed ex_store ex_filters /\
+  (locate_model ex_allowed ex_store ex_filters None None = Ok [3; 6; 7] /\
+   locate_model ex_allowed ex_store ex_filters (Some 1) (Some 1) = Ok [6] /\
+   locate_model ex_allowed ex_store [] None None = Ok [3; 6; 4; 1; 2; 7]).
+Proof. exact (conj ex_side_conditions ex_answer). Qed.
+
+(* the syntactic condition under which crash_free holds for every store of the seven stored types *)
+Theorem crash_free_when_no_certificate_or_no_alg_len : forall objs fs,
+  Forall stored_type objs -> forallb supported fs = true ->
+  (forallb (fun f => negb (is_alg_or_len f)) fs = true \/ Forall (fun o => o_type o <> 1) objs) ->
+  crash_free objs fs.
+Proof. exact crash_free_sufficient. Qed.
+Print Assumptions crash_free_when_no_certificate_or_no_alg_len.
+
+(* the statement without side conditions, and why it is not a theorem of the faithful model *)
+Definition locate_refines_spec_unconditional_statement : Prop := locate_refines_spec_unconditional.
+Theorem locate_refines_spec_unconditional_refuted : ~ locate_refines_spec_unconditional_statement.
+Proof. exact locate_refines_spec_unconditional_fails. Qed.
+Print Assumptions locate_refines_spec_unconditional_refuted.
+
+Theorem crash_free_needed : locate_model everyone [ex_cert 2 "bob" 100] [FLen 128] None None = Crash.
+Proof. exact cert_length_filter_crashes. Qed.
+Theorem wf_idate_needed :
+  locate_model everyone [ex_key 1 "alice" 0 128] [FDate 50] None None = Ok [1] /\
+  locate_spec everyone [ex_key 1 "alice" 0 128] [FDate 50] None None = [].
+Proof. exact epoch_date_filter_ignored. Qed.
+Theorem supported_kind_needed :
+  locate_model everyone [ex_key 1 "alice" 100 128] [FOther "Activation Date"] None None = Ok [1] /\
+  locate_spec everyone [ex_key 1 "alice" 100 128] [FOther "Activation Date"] None None = [].
+Proof. exact unsupported_filter_ignored. Qed.
+Theorem supported_mask_needed :
+  locate_model everyone [ex_key 1 "alice" 100 128] [FMask (4 + 2 ^ 30)] None None = Ok [1] /\
+  locate_spec everyone [ex_key 1 "alice" 100 128] [FMask (4 + 2 ^ 30)] None None = [].
+Proof. exact undefined_mask_bits_ignored. Qed.
+Theorem two_dates_needed :
+  locate_model everyone [ex_key 1 "alice" 100 128] [FDate 1; FDate 2; FDate 3] None None = TooMany /\
+  locate_model everyone [] [FDate 1; FDate 2; FDate 3] None None = Ok [] /\
+  locate_model everyone [ex_key 1 "alice" 100 128] [FObjType 1; FDate 1; FDate 2; FDate 3] None None = Ok [].
+Proof. exact third_date_filter. Qed.
+
+(* ------------------------------------------------------------------------------------------------
+   2. Newest first, and never an object the requester may not locate: NO side condition. *)
+Theorem locate_sorted : forall allowed objs fs off mx ids,
+  locate_model allowed objs fs off mx = Ok ids ->
+  exists l, ids = map o_uid l /\ StronglySorted desc l /\
+            (forall o, In o l -> In o objs /\ allowed o = true).
+Proof. exact locate_sorted_lemma. Qed.
+Print Assumptions locate_sorted.
+
+(* objects with equal Initial Date keep their store order (Python's sorted is stable) *)
+Theorem locate_stable : forall allowed objs fs l k, locate_objs allowed objs fs = Ok l ->
+  exists p, filter (fun o => o_idate o =? k) l = filter (fun o => o_idate o =? k) (filter p (filter allowed objs)).
+Proof. exact locate_stable_lemma. Qed.
+Print Assumptions locate_stable.
+
+(* ------------------------------------------------------------------------------------------------
+   3. Exactly the permitted matching set (before slicing). *)
+Theorem locate_perm : forall allowed objs fs, side_conditions allowed objs fs ->
+  exists l, locate_objs allowed objs fs = Ok l /\
+            locate_model allowed objs fs None None = Ok (map o_uid l) /\
+            Permutation l (filter (selected allowed fs) objs).
+Proof. exact locate_perm_lemma. Qed.
+Print Assumptions locate_perm.
+
+Theorem locate_exact : forall allowed objs fs, side_conditions allowed objs fs ->
+  exists l, locate_objs allowed objs fs = Ok l /\
+    forall o, In o l <->
+      In o objs /\ allowed o = true /\ (forall f, In f fs -> matches o f = true) /\
+      date_match (filter_dates fs) (o_idate o) = true.
+Proof. exact locate_exact_lemma. Qed.
+Print Assumptions locate_exact.
+
+(* ------------------------------------------------------------------------------------------------
+   4. Pages of size n > 0 at offsets 0, n, 2n, ... concatenate to the full answer and are pairwise
+      disjoint (identifiers are unique in the store).  No side condition beyond success of the
+      unsliced request. *)
+Theorem pages_partition : forall allowed objs fs (n m : nat) full,
+  (0 < n)%nat ->
+  locate_model allowed objs fs None None = Ok full ->
+  (List.length full <= m * n)%nat ->
+  exists pages : nat -> list Z,
+    (forall k, locate_model allowed objs fs (Some (Z.of_nat k * Z.of_nat n)) (Some (Z.of_nat n)) = Ok (pages k)) /\
+    concat (map pages (seq 0 m)) = full /\
+    (NoDup (map o_uid objs) -> forall i j x, i <> j -> In x (pages i) -> ~ In x (pages j)).
+Proof. exact pages_partition_lemma. Qed.
+Print Assumptions pages_partition.
+
+Example pages_partition_example :
+  locate_model ex_allowed ex_store [] None None = Ok [3; 6; 4; 1; 2; 7] /\
+  locate_model ex_allowed ex_store [] (Some 0) (Some 4) = Ok [3; 6; 4; 1] /\
+  locate_model ex_allowed ex_store [] (Some 4) (Some 4) = Ok [2; 7] /\
+  locate_model ex_allowed ex_store [] (Some 8) (Some 4) = Ok [].
+Proof. vm_compute. repeat split. Qed.
+
+(* ------------------------------------------------------------------------------------------------
+   5. Filters are conjunctive and their order is irrelevant. *)
+Theorem filters_conjunctive : forall allowed objs fs1 fs2,
+  filter_dates fs1 = [] ->
+  side_conditions allowed objs (fs1 ++ fs2) -> side_conditions allowed objs fs2 ->
+  exists l12 l2, locate_objs allowed objs (fs1 ++ fs2) = Ok l12 /\ locate_objs allowed objs fs2 = Ok l2 /\
+                 l12 = filter (fun o => forallb (matches o) fs1) l2.
+Proof. exact filters_conjunctive_lemma. Qed.
+Print Assumptions filters_conjunctive.
+
+Example filters_conjunctive_example :
+  filter_dates [FObjType 2; FLen 256] = [] /\
+  side_conditions ex_allowed ex_store ([FObjType 2; FLen 256] ++ [FDate 105; FDate 99]) /\
+  side_conditions ex_allowed ex_store [FDate 105; FDate 99].
+Proof. exact ex_conj_side_conditions. Qed.
+
+Theorem filters_order_irrelevant : forall allowed objs fs fs' off mx,
+  Permutation fs fs' -> locate_spec allowed objs fs off mx = locate_spec allowed objs fs' off mx.
+Proof. exact filters_order_irrelevant_lemma. Qed.
+Print Assumptions filters_order_irrelevant.
+
+(* ------------------------------------------------------------------------------------------------
+   6. The only ways the model fails. *)
+Theorem locate_failure_causes : forall allowed objs fs off mx,
+  (locate_model allowed objs fs off mx = TooMany -> (List.length (filter_dates fs) > 2)%nat) /\
+  (locate_model allowed objs fs off mx = Crash ->
+     exists o f, In o objs /\ allowed o = true /\ In f fs /\
+       (applicable f (o_type o) = None \/ (applicable f (o_type o) = Some true /\ readable f o = false))).
+Proof. exact locate_failure_lemma. Qed.
+Print Assumptions locate_failure_causes.
